@@ -76,10 +76,14 @@ fn client_a(op: &str, p: &str, v: &str) -> Script {
     s.q(&probe(3)).terminate()
 }
 
-fn client_b() -> Script {
+fn client_b(app: Option<&str>) -> Script {
     let t = |j: usize| tag(1, j, 0);
-    Script::new("b")
-        .connect("alice", "db", Some("alicepw"))
+    let s = Script::new("b");
+    let s = match app {
+        Some(a) => s.connect_params("alice", "db", Some("alicepw"), &[("application_name", a)]),
+        None => s.connect("alice", "db", Some("alicepw")),
+    };
+    s
         .q(&format!("SELECT 'probe' /*{}*/", t(0)))
         .q(&format!("SELECT 'probe' /*{}*/", t(1)))
         .q(&format!("SELECT 'probe' /*{}*/", t(2)))
@@ -88,16 +92,27 @@ fn client_b() -> Script {
 }
 
 pub fn scenario(pool_size: u32, op: &str, p: &str, v: &str) -> Scenario {
+    scenario_b(pool_size, op, p, v, None)
+}
+
+/// `b_app`: client B's own application_name at startup (None = server default)
+pub fn scenario_b(pool_size: u32, op: &str, p: &str, v: &str, b_app: Option<&str>) -> Scenario {
     let cfg = Cfg::one(PoolCfg::simple("db", "transaction", pool_size, 1, 0));
     let servers = cfg.servers();
     Scenario {
-        name: format!("C12 pool_size={} op={} param={} value={:?}", pool_size, op, p, v).replace(' ', "_").replace("C12_pool", "C12 pool").replace("_op=", " op=").replace("_param=", " param=").replace("_value=", " value="),
+        name: format!("C12 pool_size={} op={} param={} value={:?}{}", pool_size, op, p, v, b_app.map(|a| format!(" b_app={:?}", a)).unwrap_or_default())
+            .replace(' ', "_")
+            .replace("C12_pool", "C12 pool")
+            .replace("_op=", " op=")
+            .replace("_param=", " param=")
+            .replace("_value=", " value=")
+            .replace("_b_app=", " b_app="),
         toml: cfg.toml(),
         alt_tomls: vec![],
         servers,
-        actors: vec![client_a(op, p, v).actor(), client_b().actor()],
+        actors: vec![client_a(op, p, v).actor(), client_b(b_app).actor()],
         opts: Opts::default(),
-        meta: serde_json::json!({"op": op, "param": p, "value": v}),
+        meta: serde_json::json!({"op": op, "param": p, "value": v, "b_app": b_app}),
     }
 }
 
@@ -131,6 +146,10 @@ pub fn oracle(sc: &Scenario, out: &Outcome) -> Vec<Violation> {
     if op == "startup" {
         established[0].insert(p.to_string(), val.to_string());
     }
+    if let Some(b) = sc.meta["b_app"].as_str() {
+        established[1].insert("application_name".to_string(), b.to_string());
+    }
+    let ctx = if sc.meta["b_app"].is_string() { format!("{}:b-own-value", ctx) } else { ctx };
     for e in log {
         match &e.rec {
             Rec::CRecv { c, msg } if *c < 2 && msg.code == b'S' => {
@@ -206,12 +225,22 @@ pub fn build(tier: &str) -> SimCheck {
             }
         }
     }
+    // client B with a value of its own: unrelated, and differing from A's only in letter case
+    for pool_size in [1u32, 2] {
+        for op in ["startup", "set", "set-then-reset-all"] {
+            for val in ["plain", "with space"] {
+                let twin = val.to_uppercase();
+                scenarios.push(scenario_b(pool_size, op, "application_name", val, Some("other-app")));
+                scenarios.push(scenario_b(pool_size, op, "application_name", val, Some(&twin)));
+            }
+        }
+    }
     SimCheck {
         scenarios,
         oracle: Box::new(oracle),
         bound: if thorough { 3 } else { 2 },
         limits: Limits { max_wall_s: if thorough { 1500.0 } else { 55.0 }, ..Default::default() },
-        rule: "scenario = pool_size {1,2} x operation of client A (startup parameter, SET, SET twice, SET with an untracked SET, SET then RESET ALL, SET inside a rolled-back / committed transaction) x tracked parameter x value (free text incl. space, quote, backslash, non-ASCII, empty for application_name; valid alternates for the others); client B uses defaults and shares the connection(s); every schedule with <= bound deviations; at every tagged statement the backend's value of each tracked parameter must equal what that client was told by ParameterStatus and what it established".into(),
+        rule: "client B also with an application_name of its own (unrelated / equal to A's up to letter case); scenario = pool_size {1,2} x operation of client A (startup parameter, SET, SET twice, SET with an untracked SET, SET then RESET ALL, SET inside a rolled-back / committed transaction) x tracked parameter x value (free text incl. space, quote, backslash, non-ASCII, empty for application_name; valid alternates for the others); client B uses defaults and shares the connection(s); every schedule with <= bound deviations; at every tagged statement the backend's value of each tracked parameter must equal what that client was told by ParameterStatus and what it established".into(),
         assumptions: vec!["reference backend reports ParameterStatus like PostgreSQL 14 (before ReadyForQuery, also on RESET ALL and ROLLBACK)".into()],
     }
 }
